@@ -520,6 +520,8 @@ int KSI_Signature_replacePublicationRecord(KSI_Signature *sig, KSI_PublicationRe
 			KSI_pushError(sig->ctx, res, NULL);
 			goto cleanup;
 		}
+		/* The TLV belongs to the signature now. */
+		newPubTlv = NULL;
 
 		if (sig->publication != NULL) {
 			KSI_PublicationRecord_free(sig->publication);
@@ -530,6 +532,8 @@ int KSI_Signature_replacePublicationRecord(KSI_Signature *sig, KSI_PublicationRe
 	res = KSI_OK;
 
 cleanup:
+
+	KSI_TLV_free(newPubTlv);
 
 	return res;
 }
